@@ -37,7 +37,7 @@ def gen_case(r, cid, source, chain, n=None, term=None, nt=None, cs=None):
         term = "red:" + r.choice(["add", "xor", "min", "max"])
     elif term == "ci":
         old = [r.randrange(0, 50) for _ in range(r.choice([0, 1, 3, 9]))]
-        term = "ci:%s:%s" % (r.choice("vsf"), "/".join(map(str, old)) if old else "-")
+        term = "ci:%s:%s" % (r.choice("vsfgw"), "/".join(map(str, old)) if old else "-")
     elif term in ("find", "any", "all"):
         term = term + ":" + k3.rnd_filf(r)
     ops = ["N:%d" % nt, "%s:%d" % cs] + stages + ["%s:%d" % cs, "N:%d" % nt]
@@ -107,7 +107,7 @@ def run_k6(tier, seed):
             cid += 1
         # corner grid: every collecting / reducing terminal on tiny inputs (single worker, fewer
         # elements than threads) and on an input long enough for two workers to interleave
-        for term in ["cv", "cs", "cx", "ci:v", "ci:s", "ci:f", "cnt", "red", "find", "first"]:
+        for term in ["cv", "cs", "cx", "ci:v", "ci:s", "ci:f", "ci:g", "ci:w", "cnt", "red", "find", "first"]:
             for (n, nt, cs) in [(1, 2, ("C", 1)), (1, 0, ("C", 0)), (2, 4, ("Cm", 1)), (40, 2, ("C", 1)), (33, 3, ("C", 2))]:
                 if tier == "quick" and (cid % 2) and n > 2:
                     cid += 1
